@@ -227,7 +227,15 @@ func c10R1(c *Ctx, r *Report) {
 			}
 			kk, isK := constIntOf(b.Y)
 			return isK && kk == zone && zone == 256 && anyIn(sliceOf(b.X), fieldPathOf(isValue(k), "Flags"))
-		}, B: isConstInt(0), Holds: false},
+		}, B: isConstInt(0), Holds: false, Alt: &Guard{Op: "eq", A: func(v ssa.Value) bool {
+			// the same test written k.Flags&ZONE == ZONE (ZONE is a single bit)
+			b, ok := v.(*ssa.BinOp)
+			if !ok || b.Op != token.AND {
+				return false
+			}
+			kk, isK := constIntOf(b.Y)
+			return isK && kk == zone && zone == 256 && anyIn(sliceOf(b.X), fieldPathOf(isValue(k), "Flags"))
+		}, B: isConstInt(256), Holds: true}},
 		{Name: "h0.Class == rr.Hdr.Class", Op: "eq", A: fieldPathOf(isH0, "Class"), B: fieldPathOf(isValue(rr), "Hdr.Class"), Holds: true},
 		{Name: "h0.Rrtype == rr.TypeCovered", Op: "eq", A: fieldPathOf(isH0, "Rrtype"), B: fieldPathOf(isValue(rr), "TypeCovered"), Holds: true},
 		{Name: "CountLabel(h0.Name) >= rr.Labels", Op: "lt", A: func(v ssa.Value) bool {
